@@ -43,7 +43,7 @@ def ldu(load_v, name):
   try:
     # TODO(mdan): Use locals()/globals() here.
     return load_v()
-  except (KeyError, AttributeError, NameError):
+  except (KeyError, IndexError, AttributeError, NameError):
     return Undefined(name)
 
 
